@@ -13,8 +13,9 @@ raises numpy's own exception and the return value has numpy's type and shape.
 import numpy as np
 
 
-class UnsupportedRngCall(Exception):
-    pass
+class UnsupportedRngCall(BaseException):
+    """the code under test used a generator feature the scripted model does not cover: this is a limit of the harness, never
+    a verdict about the code - derives from BaseException so that no `except Exception` can turn it into a violation"""
 
 
 class ScriptDivergence(Exception):
@@ -92,6 +93,12 @@ class ChoiceRng:
             lo, hi = 0, low
         else:
             lo, hi = low, high
+        if np.ndim(real) > 0:
+            # vectorised bounds: one independent pick per element (row-major)
+            los = np.broadcast_to(np.asarray(lo), np.shape(real)).ravel()
+            his = np.broadcast_to(np.asarray(hi), np.shape(real)).ravel()
+            vals = [int(a) + self._pick(int(b) - int(a) + (1 if endpoint else 0)) for a, b in zip(los, his)]
+            return np.array(vals, dtype=real.dtype).reshape(np.shape(real))
         lo, hi = int(lo), int(hi)
         n = hi - lo + (1 if endpoint else 0)
         return type(real)(lo + self._pick(n))
@@ -166,6 +173,10 @@ class RecordingRng:
         if size is not None:
             raise UnsupportedRngCall('integers with size')
         v = self._real.integers(low, high, size=size, dtype=dtype, endpoint=endpoint)
+        if np.ndim(v) > 0:
+            los = np.broadcast_to(np.asarray(0 if high is None else low), np.shape(v)).ravel()
+            self.script.extend(int(x) - int(a) for x, a in zip(np.ravel(v), los))
+            return v
         lo = 0 if high is None else int(low)
         self.script.append(int(v) - lo)
         return v
